@@ -31,6 +31,7 @@ type dlEv struct {
 	Idx     int    `json:"idx,omitempty"`
 	Outcome int    `json:"outcome,omitempty"` // 0 success, 1 ignore, 2 dropped
 	Ns      int64  `json:"ns,omitempty"`
+	Dead    bool   `json:"dead,omitempty"` // acq: the caller's context is already cancelled (the default limiter gates on capacity alone)
 }
 
 type dlCase struct {
@@ -142,9 +143,12 @@ func genDL(purpose string) func(t *rapid.T) dlCase {
 					Ns:      rapid.SampledFrom([]int64{1, 1000, 100_000, 1_000_000, 3_000_000}).Draw(t, "cns"),
 					Outcome: rapid.SampledFrom([]int{0, 0, 0, 0, 0, 1, 2}).Draw(t, "coutcome")}
 			case k < 8:
-				return dlEv{K: "acq", Key: rapid.SampledFrom([]string{"a", "a", "b", "zz", "c"}).Draw(t, "key")}
+				return dlEv{K: "acq", Key: rapid.SampledFrom([]string{"a", "a", "b", "zz", "c"}).Draw(t, "key"), Dead: rapid.IntRange(0, 7).Draw(t, "dead") == 0}
 			case k < 16:
 				return dlEv{K: "done", Idx: rapid.IntRange(0, 1000).Draw(t, "idx"), Outcome: rapid.SampledFrom([]int{0, 0, 0, 0, 1, 2}).Draw(t, "outcome")}
+			case k >= 17 && k < 20 && purpose == "c05" && (c.Strategy == "lookup" || c.Strategy == "predicate") && rapid.IntRange(0, 1).Draw(t, "dyn") == 0:
+				// partitions come and go while the limiter runs (an update may find none registered)
+				return dlEv{K: rapid.SampledFrom([]string{"prmall", "prm", "padd", "padd"}).Draw(t, "dynk"), Key: rapid.SampledFrom(dlBins).Draw(t, "dynkey")}
 			default:
 				return dlEv{K: "sleep", Ns: rapid.SampledFrom([]int64{0, 1, 500, 999, 1000, 50_000, 100_000, 1_000_000, 2_000_000, 3_000_000, 25_000_000}).Draw(t, "ns")}
 			}
@@ -171,6 +175,43 @@ type dlBuilt struct {
 	precise *strategy.PreciseStrategy
 	lookup  *strategy.LookupPartitionStrategy
 	pred    *strategy.PredicatePartitionStrategy
+	present []string // partitions currently registered, in registration order (dynamic add / remove, C05 only)
+}
+
+// idxOf: position of a named partition among the registered ones (-1 when it is not registered).
+func (b *dlBuilt) idxOf(name string) int {
+	for i, n := range b.present {
+		if n == name {
+			return i
+		}
+	}
+	return -1
+}
+
+// removePart / addPart: dynamic partition changes (the strategy keeps running).
+func (b *dlBuilt) removePart(name string) {
+	i := b.idxOf(name)
+	if i < 0 {
+		return
+	}
+	if b.lookup != nil {
+		b.lookup.RemovePartition(name)
+	} else {
+		b.pred.RemovePartitionsMatching(context.WithValue(context.Background(), matchers.StringPredicateContextKey, name))
+	}
+	b.present = append(b.present[:i:i], b.present[i+1:]...)
+}
+
+func (b *dlBuilt) addPart(c dlCase, name string) {
+	if b.idxOf(name) >= 0 {
+		return
+	}
+	if b.lookup != nil {
+		b.lookup.AddPartition(name, strategy.NewLookupPartitionWithMetricRegistry(name, c.frac(name), int32(c.PartInit), b.reg))
+	} else {
+		b.pred.AddPartition(strategy.NewPredicatePartitionWithMetricRegistry(name, c.frac(name), matchers.StringPredicateMatcher(name, false), b.reg))
+	}
+	b.present = append(b.present, name)
 }
 
 func (b *dlBuilt) stratLimit() int {
@@ -204,7 +245,7 @@ func (b *dlBuilt) binLimit(i int) int {
 		n, _ := b.lookup.BinLimit(dlBins[i])
 		return n
 	}
-	n, _ := b.pred.BinLimit(i)
+	n, _ := b.pred.BinLimit(b.idxOf(dlBins[i]))
 	return n
 }
 
@@ -213,7 +254,7 @@ func (b *dlBuilt) binBusy(i int) int {
 		n, _ := b.lookup.BinBusyCount(dlBins[i])
 		return n
 	}
-	n, _ := b.pred.BinBusyCount(i)
+	n, _ := b.pred.BinBusyCount(b.idxOf(dlBins[i]))
 	return n
 }
 
@@ -229,7 +270,7 @@ func (c dlCase) frac(name string) float64 {
 }
 
 func buildDL(c dlCase, sc *sched) (*dlBuilt, error) {
-	b := &dlBuilt{reg: newRecRegistry()}
+	b := &dlBuilt{reg: newRecRegistry(), present: append([]string(nil), dlBins...)}
 	var st core.Strategy
 	switch c.Strategy {
 	case "simple":
@@ -364,6 +405,7 @@ func runDLInBubble(c dlCase, prop string) (out kit.Outcome) {
 		sawLowOrRepeat                                      bool
 		lastEnforced                                        = -1
 		maxLimitSeen                                        int
+		dynParts                                            bool
 	)
 	est := func() int { return b.limit.EstimatedLimit() }
 	enforced := func() int {
@@ -384,6 +426,9 @@ func runDLInBubble(c dlCase, prop string) (out kit.Outcome) {
 		}
 		if b.lookup != nil || b.pred != nil {
 			for i, n := range dlBins {
+				if b.idxOf(n) < 0 {
+					continue // not registered at the moment
+				}
 				w := dlShare(want, c.frac(n))
 				if got := b.binLimit(i); got != w {
 					o := kit.Viol(c.Strategy+":stale-share", "%s: partition %q share is %d, want max(1,ceil(%d*%v))=%d", when, n, got, want, c.frac(n), w)
@@ -429,13 +474,35 @@ func runDLInBubble(c dlCase, prop string) (out kit.Outcome) {
 		switch e.K {
 		case "sleep":
 			time.Sleep(time.Duration(e.Ns))
+		case "prm":
+			if b.lookup != nil || b.pred != nil {
+				b.removePart(e.Key)
+				dynParts = true
+			}
+		case "prmall":
+			if b.lookup != nil || b.pred != nil {
+				for _, n := range dlBins {
+					b.removePart(n)
+				}
+				dynParts = true
+			}
+		case "padd":
+			if b.lookup != nil || b.pred != nil {
+				b.addPart(c, e.Key)
+			}
 		case "acq":
 			L := b.stratLimit()
 			if L > maxLimitSeen {
 				maxLimitSeen = L
 			}
 			busyBefore := len(held)
-			l, ok := b.lim.Acquire(stackKeyCtx(context.Background(), e.Key))
+			actx := stackKeyCtx(context.Background(), e.Key)
+			if e.Dead {
+				dctx, cancel := context.WithCancel(actx)
+				cancel()
+				actx = dctx
+			}
+			l, ok := b.lim.Acquire(actx)
 			if (l != nil) != ok {
 				return kit.Viol(c.Strategy+":listener-iff-ok", "event %d: Acquire returned listener=%v ok=%v", i, l != nil, ok)
 			}
@@ -559,6 +626,9 @@ func runDLInBubble(c dlCase, prop string) (out kit.Outcome) {
 	synctest.Wait()
 	nWin := len(model.want)
 	out.Labels = []string{"strategy:" + c.Strategy, "limit:" + c.Limit.Algo}
+	if dynParts {
+		out.Labels = append(out.Labels, "partitions-removed-while-running")
+	}
 	if nWin >= 2 {
 		out.Labels = append(out.Labels, "windows>=2")
 	}
